@@ -374,6 +374,7 @@ func runOracle(c *Ctx) {
 		search = search || a == "search"
 	}
 	cases = append(cases, tailCases(c.Seed, search || c.Tier != "quick")...)
+	cases = append(cases, fracCases()...)
 	n := c.N
 	for i := 0; i < n; i++ {
 		cases = append(cases, g.randomCase())
